@@ -1,11 +1,62 @@
 from nucsvc.propspec import propagator
 
+Y_SAME = ("P1.y", "domains[n - 1, MIN] == pre(domains)[n - 1, MIN] and domains[n - 1, MAX] == pre(domains)[n - 1, MAX]")
+
 propagator(REG, "nucs/propagators/max_leq_propagator.py::compute_domains_max_leq",
     rel="forall(k, 0, n - 1, @T[k] <= @T[n - 1])", n_min=2,
     loops={1: dict(index="i", fingerprint="for range(len(x))", invariant=[
         ("P1.min", "forall(k, 0, n, domains[k, MIN] == pre(domains)[k, MIN])"),
-        ("P1.y", "domains[n - 1, MAX] == pre(domains)[n - 1, MAX]"),
+        Y_SAME,
         ("P2.done", "forall(k, 0, i, domains[k, MAX] == min(pre(domains)[k, MAX], domains[n - 1, MAX]) and domains[k, MIN] <= domains[k, MAX])"),
         ("P1.todo", "forall(k, i, n - 1, domains[k, MAX] == pre(domains)[k, MAX])"),
+    ])},
+    tags={"P1": ["C05"], "P2": ["C05"]})
+
+propagator(REG, "nucs/propagators/min_geq_propagator.py::compute_domains_min_geq",
+    rel="forall(k, 0, n - 1, @T[k] >= @T[n - 1])", n_min=2,
+    loops={1: dict(index="i", fingerprint="for range(len(x))", invariant=[
+        ("P1.max", "forall(k, 0, n, domains[k, MAX] == pre(domains)[k, MAX])"),
+        Y_SAME,
+        ("P2.done", "forall(k, 0, i, domains[k, MIN] == max(pre(domains)[k, MIN], domains[n - 1, MIN]) and domains[k, MIN] <= domains[k, MAX])"),
+        ("P1.todo", "forall(k, i, n - 1, domains[k, MIN] == pre(domains)[k, MIN])"),
+    ])},
+    tags={"P1": ["C05"], "P2": ["C05"]})
+
+propagator(REG, "nucs/propagators/max_eq_propagator.py::compute_domains_max_eq",
+    rel="forall(k, 0, n - 1, @T[k] <= @T[n - 1]) and exists(k, 0, n - 1, @T[k] == @T[n - 1])", n_min=2, entail=False,
+    loops={1: dict(index="i", fingerprint="for range(len(x))", invariant=[
+        ("P1.min", "forall(k, 0, n - 1, domains[k, MIN] == pre(domains)[k, MIN])"),
+        Y_SAME,
+        ("P2.done", "forall(k, 0, i, domains[k, MAX] == min(pre(domains)[k, MAX], domains[n - 1, MAX]))"),
+        ("P1.todo", "forall(k, i, n - 1, domains[k, MAX] == pre(domains)[k, MAX])"),
+        ("P2.cand0", "candidates_nb >= 0 and implies(candidates_nb == 0, forall(k, 0, i, domains[k, MAX] < domains[n - 1, MIN]))"),
+        ("P2.cand1", "implies(candidates_nb >= 1, 0 <= candidate_idx and candidate_idx < i and domains[candidate_idx, MAX] >= domains[n - 1, MIN])"),
+        ("P2.cand_unique", "implies(candidates_nb == 1, forall(k, 0, i, implies(k != candidate_idx, domains[k, MAX] < domains[n - 1, MIN])))"),
+    ])},
+    tags={"P1": ["C05"], "P2": ["C05"]})
+
+propagator(REG, "nucs/propagators/min_eq_propagator.py::compute_domains_min_eq",
+    rel="forall(k, 0, n - 1, @T[k] >= @T[n - 1]) and exists(k, 0, n - 1, @T[k] == @T[n - 1])", n_min=2, entail=False,
+    loops={1: dict(index="i", fingerprint="for range(len(x))", invariant=[
+        ("P1.max", "forall(k, 0, n - 1, domains[k, MAX] == pre(domains)[k, MAX])"),
+        Y_SAME,
+        ("P2.done", "forall(k, 0, i, domains[k, MIN] == max(pre(domains)[k, MIN], domains[n - 1, MIN]))"),
+        ("P1.todo", "forall(k, i, n - 1, domains[k, MIN] == pre(domains)[k, MIN])"),
+        ("P2.cand0", "candidates_nb >= 0 and implies(candidates_nb == 0, forall(k, 0, i, domains[k, MIN] > domains[n - 1, MAX]))"),
+        ("P2.cand1", "implies(candidates_nb >= 1, 0 <= candidate_idx and candidate_idx < i and domains[candidate_idx, MIN] <= domains[n - 1, MAX])"),
+        ("P2.cand_unique", "implies(candidates_nb == 1, forall(k, 0, i, implies(k != candidate_idx, domains[k, MIN] > domains[n - 1, MAX])))"),
+    ])},
+    tags={"P1": ["C05"], "P2": ["C05"]})
+
+propagator(REG, "nucs/propagators/dummy_propagator.py::compute_domains_dummy", rel="True", n_min=0, entail=False)
+
+propagator(REG, "nucs/propagators/and_propagator.py::compute_domains_and",
+    rel="iff(forall(k, 0, n - 1, @T[k] == 1), @T[n - 1] == 1)", n_min=2, entail=False,
+    requires=["forall(k, 0, n, 0 <= domains[k, MIN] and domains[k, MAX] <= 1)"],
+    loops={1: dict(index="i", fingerprint="for range(len(x))", invariant=[
+        ("P1.same", "same_pre(domains)"),
+        ("P2.cand0", "candidates_nb >= 0 and implies(candidates_nb == 0, forall(k, 0, i, domains[k, MIN] != 0))"),
+        ("P2.cand1", "implies(candidates_nb >= 1, 0 <= candidate_idx and candidate_idx < i and domains[candidate_idx, MIN] == 0)"),
+        ("P2.cand_unique", "implies(candidates_nb == 1, forall(k, 0, i, implies(k != candidate_idx, domains[k, MIN] != 0)))"),
     ])},
     tags={"P1": ["C05"], "P2": ["C05"]})
